@@ -170,6 +170,25 @@ Example C17_example :
    home s 0 = 100%N /\ memo (eng s) 0 = 74565%N).
 Proof. vm_compute. repeat split. Qed.
 
+(* the timing of the flush is not a parameter: the theorems hold for every event list.  A writer chain that leaves
+   the owner and returns (rank 0 owns tile 0; writers on ranks 0, 1, 0: the last writer works on a copy, inpl = false),
+   flushed EARLY (the flush task is inserted while the writers are pending: tile->last_user alive) and LATE (after they
+   have all ended: the not-alive branch of parsec_insert_dtd_flush_task): in both runs the owner's storage ends with
+   the value of the last writer, and before the flush task has run it still holds the value of the first one *)
+Definition C17_bounce_ops : list op := [OTask 0 [(0,RW)]; OTask 1 [(0,RW)]; OTask 0 [(0,RW)]; OFlush 0; OWait].
+Example C17_early_and_late_flush :
+  let c := compile C17_ex_owner C17_bounce_ops in
+  let run := frun C17_ex_owner fbody (c_out c) (c_waits c) no_window mem0 in
+  let early := [Insert; Insert; Insert; Insert; Begin 0; End 0; Begin 1; End 1; Begin 2; End 2; Begin 3; End 3] in
+  let late := [Insert; Begin 0; End 0; Insert; Begin 1; End 1; Insert; Begin 2; End 2; Insert; Begin 3; End 3] in
+  c_out c = [FUser 0 [(0,RW)]; FUser 1 [(0,RW)]; FUser 0 [(0,RW)]; FFlush 0 0] /\
+  inpl C17_ex_owner (c_out c) 3 0 = false /\ wfb C17_ex_owner (c_out c) (c_waits c) = true /\
+  home (run early) 0 = snd (seq_dtd fbody (utasks C17_bounce_ops) mem0) 0 /\
+  home (run late) 0 = snd (seq_dtd fbody (utasks C17_bounce_ops) mem0) 0 /\
+  home (run (firstn 11 late)) 0 = hd 0%N (nth 1 (fst (seq_dtd fbody (utasks C17_bounce_ops) mem0)) []) /\
+  home (run late) 0 <> home (run (firstn 11 late)) 0.
+Proof. vm_compute. repeat split; discriminate. Qed.
+
 (* the contract is needed: without the wait, a task inserted after the flush of a tile is chained behind
    nothing and may run before the tasks that precede the flush *)
 Example C17_unwaited_flush_refuted :
